@@ -8,6 +8,7 @@ import (
 	"io"
 	"os"
 	"sort"
+	"sync"
 	"sync/atomic"
 	"unsafe"
 
@@ -26,6 +27,11 @@ type Ctx struct {
 	OnAccess func(site int)
 	// OnYield is called at every loop iteration of instrumented packages.
 	OnYield func(site int)
+	// OnBlock is called when the calling thread cannot take a lock of the code under test (sync.Mutex, sync.RWMutex, the
+	// guard of a sync.Once): the scheduler runs somebody else and returns when the attempt should be repeated. With
+	// OnBlock nil the real blocking call is made. OnRelease is called after a lock was released.
+	OnBlock   func(site int)
+	OnRelease func(site int)
 	// OnOp is called before every file-system operation; a non-nil error is returned to the caller instead of
 	// performing the operation; it may panic(Crash{}) to abandon the execution at this point.
 	OnOp func(op Op) error
@@ -114,6 +120,87 @@ func Keys[K comparable, V any](m map[K]V, site int) []K {
 		}
 	}
 	return keys
+}
+
+// ---- locks of the code under test, under a cooperative scheduler ----
+//
+// Under the scheduler exactly one thread runs; a thread that made the real blocking call on a lock whose holder is
+// parked at a scheduling point would never return. Lock / RLock therefore poll (TryLock) and hand the processor to the
+// scheduler between attempts; the scheduler knows the thread is waiting, enables it again after some lock was released,
+// and reports a deadlock when every unfinished thread waits. Acquisition and release are scheduling points themselves.
+
+type tryLocker interface {
+	Lock()
+	TryLock() bool
+}
+
+type tryRLocker interface {
+	RLock()
+	TryRLock() bool
+}
+
+func schedCtx() *Ctx {
+	if c := cur(); c != nil && c.OnBlock != nil {
+		return c
+	}
+	return nil
+}
+
+func Lock(l tryLocker, site int) {
+	c := schedCtx()
+	if c == nil {
+		l.Lock()
+		return
+	}
+	if c.OnYield != nil {
+		c.OnYield(site)
+	}
+	for !l.TryLock() {
+		c.OnBlock(site)
+	}
+}
+
+func RLock(l tryRLocker, site int) {
+	c := schedCtx()
+	if c == nil {
+		l.RLock()
+		return
+	}
+	if c.OnYield != nil {
+		c.OnYield(site)
+	}
+	for !l.TryRLock() {
+		c.OnBlock(site)
+	}
+}
+
+func Unlock(l interface{ Unlock() }, site int) {
+	l.Unlock()
+	if c := schedCtx(); c != nil && c.OnRelease != nil {
+		c.OnRelease(site)
+	}
+}
+
+func RUnlock(l interface{ RUnlock() }, site int) {
+	l.RUnlock()
+	if c := schedCtx(); c != nil && c.OnRelease != nil {
+		c.OnRelease(site)
+	}
+}
+
+var onceGuards sync.Map // the Once (by identity) -> *sync.Mutex modelling "somebody is inside Do"
+
+// OnceDo: Do blocks while another thread is inside the function; that wait is modelled by a guard lock.
+func OnceDo(o interface{ Do(func()) }, f func(), site int) {
+	c := schedCtx()
+	if c == nil {
+		o.Do(f)
+		return
+	}
+	g, _ := onceGuards.LoadOrStore(o, &sync.Mutex{})
+	Lock(g.(*sync.Mutex), site)
+	defer Unlock(g.(*sync.Mutex), site)
+	o.Do(f)
 }
 
 // Access is a scheduling point in front of a use of a package-level variable.
